@@ -163,6 +163,9 @@ func (f *fallback) doFallback(ctx context.Context, qCtx *query_context.Context) 
 			select {
 			case <-ctx.Done():
 			case <-primDone:
+				// Primary has a response and is about to send it. Discard the
+				// secondary result, otherwise it may reach the caller first.
+				return
 			case <-primFailed: // only send secondary result when primary is failed.
 			case <-timer.C: // or timed out.
 			}
